@@ -104,7 +104,9 @@ Key(e, D) ==
   LET c == Clause(e, D) IN
   IF "tex" \in DOMAIN e /\ "panic" \notin DOMAIN e
   THEN IF Proj(e.v) = Proj(e.tex)
-       THEN (IF Clause(e, {}) = "" THEN "" ELSE "spec_disagrees_with_tex_golden")
+       THEN \* the appended copy is not part of what TeX set: it stays a clause about the code
+            (IF Clause(e, {}) = "" THEN "" ELSE IF Clause(e, {}) = "appended_paragraph_differs" THEN "appended_paragraph_differs"
+             ELSE "spec_disagrees_with_tex_golden")
        ELSE IF c # "" THEN c ELSE "differs_from_tex_golden"
   ELSE c
 
